@@ -152,6 +152,10 @@ func segmentFMP4ReadHeader(r io.ReadSeeker) (*fmp4.Init, time.Duration, error) {
 		return nil, 0, err
 	}
 
+	if mvhd.Timescale == 0 {
+		return nil, 0, fmt.Errorf("invalid mvhd timescale")
+	}
+
 	d := time.Duration(mvhd.DurationV0) * time.Second / time.Duration(mvhd.Timescale)
 
 	// read ftyp and moov
@@ -439,6 +443,8 @@ func segmentFMP4MuxParts(
 			return h.Expand()
 
 		case "traf":
+			tfhd = nil
+			tfdt = nil
 			return h.Expand()
 
 		case "tfhd":
@@ -454,6 +460,10 @@ func segmentFMP4MuxParts(
 				return nil, err
 			}
 			tfdt = box.(*amp4.Tfdt)
+
+			if tfhd == nil {
+				return nil, fmt.Errorf("tfhd box not found")
+			}
 
 			track := findInitTrack(tracks, int(tfhd.TrackID))
 			if track == nil {
@@ -471,6 +481,10 @@ func segmentFMP4MuxParts(
 				return nil, err
 			}
 			trun := box.(*amp4.Trun)
+
+			if tfhd == nil || tfdt == nil {
+				return nil, fmt.Errorf("tfhd or tfdt box not found")
+			}
 
 			dataOffset := moofOffset + uint64(trun.DataOffset)
 			dts := int64(tfdt.BaseMediaDecodeTimeV1) + startDTSMP4
